@@ -1112,6 +1112,7 @@ void Explorer<FSM>::checkC09(Runner& r, Exec& x) {
 #if VT_MANUAL
 		if (!rep.fsm) { Step c; c.op.type = OP_CONSTRUCT; rep.apply(c, opt.fill); }
 		ok = rep.fsm->replayEnter(&list[0], (hfsm2::Short) list.size());
+		if (x.hist->size() > 1) ++counters["c09_replay_enter_after_exit"];
 #else
 		return;	 // automatic activation cannot be replayed on an inactive replica
 #endif
